@@ -24,7 +24,10 @@ fn lt<'a, T: Queryable>(lhs: State<'a, T>, rhs: State<'a, T>) -> bool {
     let cmp = |lhs: &T, rhs: &T| {
         let lhs_f64 = lhs.as_f64().or_else(|| lhs.as_i64().map(|v| v as f64));
         let rhs_f64 = rhs.as_f64().or_else(|| rhs.as_i64().map(|v| v as f64));
-        if let (Some(lhs_num), Some(rhs_num)) = (lhs_f64, rhs_f64) {
+        if let (Some(lhs_int), Some(rhs_int)) = (lhs.as_i64(), rhs.as_i64()) {
+            // two integers are compared exactly: as doubles they are conflated beyond 2^53
+            lhs_int < rhs_int
+        } else if let (Some(lhs_num), Some(rhs_num)) = (lhs_f64, rhs_f64) {
             lhs_num < rhs_num
         } else if let (Some(lhs), Some(rhs)) = (lhs.as_str(), rhs.as_str()) {
             lhs < rhs
@@ -60,7 +63,10 @@ fn eq_json<T: Queryable>(lhs: &T, rhs: &T) -> bool {
     let lhs_f64 = lhs.as_f64().or_else(|| lhs.as_i64().map(|v| v as f64));
     let rhs_f64 = rhs.as_f64().or_else(|| rhs.as_i64().map(|v| v as f64));
 
-    if let (Some(lhs_num), Some(rhs_num)) = (lhs_f64, rhs_f64) {
+    if let (Some(lhs_int), Some(rhs_int)) = (lhs.as_i64(), rhs.as_i64()) {
+        // two integers are compared exactly: as doubles they are conflated beyond 2^53
+        lhs_int == rhs_int
+    } else if let (Some(lhs_num), Some(rhs_num)) = (lhs_f64, rhs_f64) {
         lhs_num == rhs_num
     } else if let (Some(lhs), Some(rhs)) = (lhs.as_array(), rhs.as_array()) {
         lhs.len() == rhs.len() && lhs.iter().zip(rhs).all(|(l, r)| eq_json(l, r))
